@@ -274,11 +274,20 @@ func CheckPolicy(a *refsem.Arch, p *seccomp.Policy, o Options) *Outcome {
 	switch {
 	case o.Prior != nil:
 		insts, err, pan = CompileAfter(a, o.Prior, p, o.Big)
-	case o.Staged && o.StagedVariant%3 == 2:
+	case o.Staged && o.StagedVariant%4 == 3 && len(p.Syscalls) > 0:
+		// shrinking: a LONGER policy (one more group, in the same backing array) was compiled first; the policy under test
+		// is its prefix. What the first compilation wrote into the shared group elements must not reach the second.
+		arr := make([]seccomp.SyscallGroup, len(p.Syscalls), len(p.Syscalls)+1)
+		copy(arr, p.Syscalls)
+		extra := seccomp.SyscallGroup{Action: seccomp.ActionKillProcess, Names: []string{a.SortedNames()[len(a.SortedNames())/2]}}
+		prior := &seccomp.Policy{DefaultAction: p.DefaultAction, Syscalls: append(arr, extra)}
+		final := &seccomp.Policy{DefaultAction: p.DefaultAction, Syscalls: arr}
+		insts, err, pan = CompileAfter(a, prior, final, o.Big)
+	case o.Staged && o.StagedVariant%4 == 2:
 		// the very same value (same Syscalls array) was compiled for another architecture before
 		insts, err, pan = CompileAfterOn(a, OtherArch(a), p, p, o.Big)
 	case o.Staged:
-		insts, err, pan = CompileAfter(a, EarlierShape(p, o.StagedVariant%3), p, o.Big)
+		insts, err, pan = CompileAfter(a, EarlierShape(p, o.StagedVariant%4), p, o.Big)
 	default:
 		insts, err, pan = Compile(a, p, o.Big)
 	}
